@@ -344,12 +344,84 @@ pub fn program_box(ctx: &Ctx) -> Vec<Prog> {
     progs
 }
 
+
+/// Fan-out family: one value consumed by N operators, N around the saturation point of
+/// the executor's 8-bit reference counts; the value is a graph input (view / owned) or an
+/// operator output. Every consumer's output is requested and must equal Relu(value).
+fn fanout_family(ctx: &Ctx, stats: &mut Stats, prefix: &str, replay: Option<&Json>) {
+    use rten_tensor::prelude::*;
+    use vp_onnx as onnx;
+    for &n in &[1usize, 2, 254, 255, 256, 257, 300] {
+        for temp in [false, true] {
+            for owned in [false, true] {
+                if let Some(f) = replay {
+                    if f["fanout"]["n"].as_u64() != Some(n as u64) || f["fanout"]["temp"].as_bool() != Some(temp) || f["fanout"]["owned"].as_bool() != Some(owned) {
+                        continue;
+                    }
+                }
+                let mut g = onnx::Graph::new("fanout");
+                g.inputs.push(onnx::ValueInfo::new("x", onnx::dtype::FLOAT, &[onnx::Dim::Sym("r".into()), onnx::Dim::Sym("c".into())]));
+                let src = if temp {
+                    g.nodes.push(onnx::Node::new("Neg", &["x"], &["t"]).named("neg"));
+                    "t"
+                } else {
+                    "x"
+                };
+                for i in 0..n {
+                    let o = format!("r{i}");
+                    g.nodes.push(onnx::Node::new("Relu", &[src], &[&o]).named(&format!("relu_{i}")));
+                    g.outputs.push(onnx::ValueInfo::untyped(&o));
+                }
+                let model = match subject::load_bytes(onnx::model_bytes(&g), LoadCfg::default()) {
+                    Ok(m) => m,
+                    Err(e) => {
+                        ctx.observe(&format!("fan-out model failed to load: {}", vp_core::truncate(&e, 60)));
+                        continue;
+                    }
+                };
+                let xin = NArr::new(&[2, 2], vec![1.0, -2.0, 3.0, -4.0]);
+                let want: Vec<f32> = xin.data.iter().map(|v| if temp { (-v).max(0.0) } else { v.max(0.0) }).collect();
+                let t = subject::to_tensor(&xin);
+                let xid = model.find_node("x").unwrap();
+                let inputs: Vec<(NodeId, rten::ValueOrView)> = if owned { vec![(xid, rten::ValueOrView::Value(rten::Value::from(t.clone())))] } else { vec![(xid, rten::ValueOrView::from(t.view()))] };
+                let outs: Vec<NodeId> = (0..n).filter_map(|i| model.find_node(&format!("r{i}"))).collect();
+                stats.runs += 1;
+                let dev = format!("{prefix}fan-out");
+                *stats.by_dev.entry(dev.clone()).or_insert(0) += 1;
+                let case = || json!({"fanout": {"n": n, "temp": temp, "owned": owned}, "deviation": dev});
+                let cls = format!("{} consumers of {} passed {}", if n > 255 { "more than 255" } else { "up to 255" }, if temp { "an operator output" } else { "a graph input" }, if owned { "as an owned value" } else { "as a view" });
+                match vp_core::catch(|| model.run(inputs, &outs, None)) {
+                    Ok(Ok(vals)) => {
+                        for (i, v) in vals.iter().enumerate() {
+                            stats.outputs_compared += 1;
+                            match subject::value_to_narr(v) {
+                                Ok(a) if a.data == want => {}
+                                other => {
+                                    ctx.violation(format!("[{dev}] consumer output differs from naive evaluation [{cls}]"), case(), format!("output r{i}: {other:?}, want {want:?}"));
+                                    break;
+                                }
+                            }
+                        }
+                    }
+                    Ok(Err(e)) => ctx.violation(format!("[{dev}] run fails although naive evaluation succeeds [{cls}]"), case(), format!("{e}")),
+                    Err(p) => ctx.violation(format!("[{dev}] run panics [{cls}]: {}", vp_core::truncate(&p, 50)), case(), p),
+                }
+            }
+        }
+    }
+}
+
 pub fn run(ctx: Ctx) -> ! {
     let pools = Pools::new();
     let child = std::env::var("VERIF_C02_CHILD").ok();
     let prefix = if child.is_some() { "pool-off+" } else { "" };
     if let Some(path) = &ctx.replay {
         let case = vp_core::read_replay_case(path);
+        if !case["fanout"].is_null() {
+            let mut stats = Stats::default();
+            fanout_family(&ctx, &mut stats, "", Some(&case));
+            ctx.finish("exploration", json!({"evaluations": stats.runs.max(1), "distinct_nontrivial": 2, "rule": "replay", "samples": [case]}), vec![]);
+        }
         let p = Prog::from_json(&case["program"]);
         let dev = case["deviation"].as_str().unwrap_or("");
         if dev.starts_with("pool-off") && std::env::var("RTEN_USE_POOL").is_err() {
@@ -385,6 +457,7 @@ pub fn run(ctx: Ctx) -> ! {
         total.lock().unwrap().merge(st);
     });
     let mut st = total.into_inner().unwrap();
+    fanout_family(&ctx, &mut st, prefix, None);
     if let Some(path) = child {
         // child: hand results to the parent
         let out = json!({"violations": ctx.export_violations(), "runs": st.runs, "outputs_compared": st.outputs_compared,
